@@ -10,7 +10,9 @@ from harness.props import c17_styles
 SPEC = os.path.join(T.SPECS, "RunHistory")
 
 
-def build_app():
+def build_app(explicit_parser=False):
+    """explicit_parser: the configuration is given one DefaultArgsParser object (Config.set_args_parser), which then serves
+    every command and every run of the application"""
     from clikit import ConsoleApplication
     from clikit.api.args.format import Argument, Option
     from clikit.config import DefaultApplicationConfig
@@ -27,6 +29,12 @@ def build_app():
     c = DefaultApplicationConfig("app", "1.0")
     c.set_catch_exceptions(True)
     c.set_terminate_after_run(False)
+    shared = None
+    if explicit_parser:
+        from clikit.args import DefaultArgsParser
+
+        shared = DefaultArgsParser()
+        c.set_args_parser(shared)
     h = Handler()
     with c.command("foo") as foo:
         foo.set_description("the foo command")
@@ -37,10 +45,16 @@ def build_app():
             bar.add_argument("x", Argument.REQUIRED, "the x")
             bar.add_option("opt", "o", Option.REQUIRED_VALUE, "the opt")
             bar.set_handler(h)
+            if shared is not None:  # (an explicitly set parser is not inherited from the application configuration)
+                bar.set_args_parser(shared)
+        if shared is not None:
+            foo.set_args_parser(shared)
     with c.command("baz") as baz:
         baz.set_description("the baz command")
         baz.add_argument("y", Argument.OPTIONAL, "the y")
         baz.set_handler(h)
+        if shared is not None:
+            baz.set_args_parser(shared)
     return ConsoleApplication(c), calls
 
 
@@ -66,12 +80,12 @@ def run_line(app, calls, line):
             "calls": intern(json.dumps(calls, default=str))}
 
 
-def run_history(lines, kinds):
-    app, calls = build_app()
+def run_history(lines, kinds, explicit_parser=False):
+    app, calls = build_app(explicit_parser)
     evs = []
     for line, kind in zip(lines, kinds):
         shared = run_line(app, calls, line)
-        fapp, fcalls = build_app()
+        fapp, fcalls = build_app(explicit_parser)
         fresh = run_line(fapp, fcalls, line)
         evs.append({"kind": kind, "line": line, "shared": shared, "fresh": fresh})
     return evs
@@ -108,8 +122,9 @@ def run(ctx):
     for h in hists:
         kinds = [e["kind"] for e in h]
         ls = [lines[k] for k in kinds]
-        traces.append(run_history(ls, kinds))
-        cases.append({"part": "history", "lines": ls, "kinds": kinds})
+        ep = len(traces) % 2 == 1
+        traces.append(run_history(ls, kinds, ep))
+        cases.append({"part": "history", "lines": ls, "kinds": kinds, "explicit_parser": ep})
         ctx.count()
         if any(k.startswith("help") or "many" in k or k in ("undefined", "baz_badopt") for k in kinds[:-1]):
             ctx.nontriv(tuple(kinds))
@@ -117,8 +132,9 @@ def run(ctx):
     pool = [(v, k) for k, v in lines.items()] + [(x, "") for x in EXTRA_LINES]
     for k in range(150 if quick else 3000):
         seq = [ctx.rng.choice(pool) for _ in range(ctx.rng.randint(2, 6))]
-        traces.append(run_history([s[0] for s in seq], [s[1] for s in seq]))
-        cases.append({"part": "history", "lines": [s[0] for s in seq], "kinds": [s[1] for s in seq]})
+        ep = k % 2 == 1
+        traces.append(run_history([s[0] for s in seq], [s[1] for s in seq], ep))
+        cases.append({"part": "history", "lines": [s[0] for s in seq], "kinds": [s[1] for s in seq], "explicit_parser": ep})
         ctx.count()
         ctx.nontriv(("r", k))
     ctx.validate(SPEC, "RunHistoryTrace", "RunHistoryTrace.cfg", traces, cases=cases, name="run-histories", chunk=300)
@@ -133,6 +149,6 @@ def replay(ctx, path):
     ctx.nontriv(2)
     ctx.sample(c)
     if c.get("part") == "history":
-        ctx.validate(SPEC, "RunHistoryTrace", "RunHistoryTrace.cfg", [run_history(c["lines"], c["kinds"])], cases=[c], name="replay")
+        ctx.validate(SPEC, "RunHistoryTrace", "RunHistoryTrace.cfg", [run_history(c["lines"], c["kinds"], c.get("explicit_parser", False))], cases=[c], name="replay")
     else:
         c17_styles.replay_styles(ctx, c)
